@@ -79,7 +79,9 @@ Swap      == /\ phase = 1 /\ UNCHANGED phase
              /\ \E s \in Senders, r \in RoutesUpTo(MaxCandLen), d \in Denoms, dir \in {"t_swap_in", "t_swap_out"} :
                   Do([m |-> dir, s |-> s, route |-> r, den |-> d, amt |-> 7, limit |-> 3])
 Spend_    == /\ phase = 1 /\ UNCHANGED phase
-             /\ \E s \in Senders, rc \in {"u1", "n:u1", "osmo1bad"}, ch \in {"", EmptyChannel, "channel-1"} :
+             \* receivers: a protocol-chain account, a native-chain account, something that is no address, and addresses whose
+             \* prefix merely starts with the right one (osmovaloper..., celestiavaloper...)
+             /\ \E s \in Senders, rc \in {"u1", "n:u1", "osmo1bad", "ov:u1", "val1"}, ch \in {"", EmptyChannel, "channel-1"} :
                   Do([m |-> "t_spend", s |-> s, den |-> "IBCTIA", amt |-> 1, receiver |-> rc, channel |-> ch,
                       rosmo |-> rc = "u1", rcel |-> rc = "n:u1"])
 Next == Configure \/ Retrader \/ Swap \/ Spend_
